@@ -5,7 +5,9 @@ import json, os, re, glob
 first = {'C01-a':'first','C02-a':'first','C03-a':'first','C04-a':'after (engine hole 2, §19)','C05-a':'first','C06-a':'first',
  'C07-a':'first (by C01; C07 after)','C08-a':'after','C09-a':'first','C10-a':'first','C11-a':'first','C12-a':'first',
  'C13-a':'first (check built after the seed)','C14-a':'after','C15-a':'first (check built after the seed)','C16-a':'first (check built after the seed)',
- 'C17-a':'after','C18-a':'first (check built after the seed)','C19-a':'first','C20-a':'after'}
+ 'C17-a':'after','C18-a':'first (check built after the seed)','C19-a':'first','C20-a':'after',
+ 'C01-b':'after (counting of todo, then decided)','C02-b':'after (firstByte was a trusted summary; now verified)','C03-b':'after','C04-b':'first','C05-b':'first (binding)','C06-b':'first',
+ 'C08-b':'after','C09-b':'first','C10-b':'first','C12-b':'first','C14-b':'first','C19-b':'first'}
 rows=[]
 for d in sorted(glob.glob('/verif/seeded/*/')):
     sid=os.path.basename(d.rstrip('/'))
